@@ -500,7 +500,12 @@ class Expander:
                         return self._x(r, st2, depth + 1)
             return e["name"]
         if k == "member":
-            return self._x(e["base"], st, depth) + ("->" if e["arrow"] else ".") + e["field"]
+            b = self._x(e["base"], st, depth)
+            if not e["field"]:
+                return b + ("->" if e["arrow"] else "")
+            if b.endswith("->"):
+                return b + e["field"]
+            return b + ("->" if e["arrow"] else ".") + e["field"]
         if k == "un":
             inner = self._x(e["e"], st, depth)
             if e["op"] == "*":
